@@ -58,6 +58,21 @@ pub fn enter(case: &str) {
     }
 }
 
+/// `enter` with an automatic `leave` when the returned value goes out of scope (end of the loop
+/// body / closure / function that announced the case), so that a finished case can never be
+/// mistaken for a hung one while the thread idles or the main thread waits for workers.
+pub struct Scope(());
+impl Drop for Scope {
+    fn drop(&mut self) {
+        leave();
+    }
+}
+#[must_use]
+pub fn scoped(case: &str) -> Scope {
+    enter(case);
+    Scope(())
+}
+
 /// Heartbeat inside a long case.
 #[inline]
 pub fn tick() {
